@@ -98,6 +98,11 @@ func VH_unaryStack() {
 	switch verifChoice(5) {
 	case 0:
 		f := verifNondetFloat()
+		if o1.Type == token.NOT || o2.Type == token.NOT {
+			// the arithmetic of ~ on arbitrary doubles is VH_unary's subject; here: whole and
+			// fractional, small and out-of-range representatives
+			verifAssume(f == 0 || f == -1 || f == 5 || f == 2.5 || f == 9.3e18)
+		}
 		operand = token.Token{Type: token.NUMBER, Lexeme: "n", Literal: f, Line: 1}
 		x = f
 	case 1:
